@@ -142,6 +142,12 @@ func (t *Transformer) maybeRecursivelyMangle(mangler Mangler, state *transformMa
 			ft = ft.Elem()
 		}
 
+		// nor into the TextUnmarshaler elements of a slice or array
+		// (e.g. []time.Time)
+		if ft.Implements(textMReflectType) || reflect.PointerTo(ft).Implements(textMReflectType) {
+			continue
+		}
+
 		fieldTransformer := Transformer{
 			manglers: []Mangler{mangler},
 			mState:   nil,
